@@ -648,14 +648,15 @@ fn rule_c01_spurious(ctx: &Ctx, out: &mut Vec<Violation>) {
                     continue;
                 }
                 let pc = &m.calls[&p.call];
-                if pc.ret_seq_or_max() < create.inv_seq {
-                    out.push(v("C01.spurious", "before_create", format!("{} received message {} whose Publish returned (seq {}) before the subscription's creation began (seq {})", d.sub, d.recv.msg_id, pc.ret_seq_or_max(), create.inv_seq)));
+                // (a Publish whose client went away has no completion: it may be processed any time later)
+                if pc.effect_end_seq() < create.inv_seq {
+                    out.push(v("C01.spurious", "before_create", format!("{} received message {} whose Publish returned (seq {}) before the subscription's creation began (seq {})", d.sub, d.recv.msg_id, pc.effect_end_seq(), create.inv_seq)));
                 }
                 // Orphaned by DeleteTopic: must not receive messages of a re-created topic.
                 if let Some(dels) = m.topic_deletes.get(&inst.topic) {
                     for dc in dels {
                         let del = &m.calls[dc];
-                        if del.returned_ok() && create.ret_seq_or_max() < del.inv_seq && del.ret_seq.unwrap() < pc.inv_seq {
+                        if del.returned_ok() && inst.established_seq < del.inv_seq && del.ret_seq.unwrap() < pc.inv_seq {
                             out.push(v("C11.orphan_receives", "orphan", format!("{} was orphaned by DeleteTopic (returned seq {}) but received message {} published afterwards (seq {})", d.sub, del.ret_seq.unwrap(), d.recv.msg_id, pc.inv_seq)));
                         }
                     }
